@@ -47,7 +47,7 @@ func loadProgram(patterns []string) (*Exec, error) {
 	x := &Exec{
 		prog: prog, pkgs: map[string]*packages.Package{}, ssaPkgs: map[string]*ssa.Package{},
 		specs: map[string]*SpecFile{}, contracts: map[string]*Contract{}, ghosts: map[string]*GhostFunc{},
-		notes: map[string]bool{}, used: map[string]bool{}, maxPaths: 20000, variants: map[string][]*Contract{}, loopFrameHeaps: map[*ssa.BasicBlock][]string{}, loopsOf: map[*ssa.Function]*loopInfo{},
+		notes: map[string]bool{}, used: map[string]bool{}, maxPaths: 20000, variants: map[string][]*Contract{}, funcVals: map[string]*ssa.Function{}, loopFrameHeaps: map[*ssa.BasicBlock][]string{}, loopsOf: map[*ssa.Function]*loopInfo{},
 	}
 	packages.Visit(pkgs, nil, func(p *packages.Package) {
 		x.pkgs[p.PkgPath] = p
@@ -248,6 +248,8 @@ func (x *Exec) ghostSort(name string, pkg *types.Package, sf *SpecFile) (string,
 		return arraySort(SInt, SInt), nil
 	case "real":
 		return SReal, nil
+	case "strs":
+		return arraySort(SInt, SString), nil
 	case "intset":
 		return arraySort(SInt, SBool), nil
 	case "strset":
@@ -342,4 +344,28 @@ func matchFunc(f *ssa.Function, full string) *ssa.Function {
 		}
 	}
 	return nil
+}
+
+// funcByName finds a function (or anonymous function such as init$1) of a package.
+func (x *Exec) funcByName(pkgPath, name string) *ssa.Function {
+	sp := x.ssaPkgs[pkgPath]
+	if sp == nil {
+		return nil
+	}
+	var found *ssa.Function
+	var walk func(f *ssa.Function)
+	walk = func(f *ssa.Function) {
+		if f.Name() == name {
+			found = f
+		}
+		for _, a := range f.AnonFuncs {
+			walk(a)
+		}
+	}
+	for _, m := range sp.Members {
+		if f, ok := m.(*ssa.Function); ok {
+			walk(f)
+		}
+	}
+	return found
 }
